@@ -52,7 +52,7 @@ func (in *Interp) timeSub(t, u Value) *Term {
 	tc := in.tc
 	tw, te := in.timeParts(t)
 	uw, ue := in.timeParts(u)
-	d := tc.Sub(te, ue)
+	d := in.arith(OpSub, te, ue, "Time.Sub")
 	one := tc.BV(64, 1)
 	zero := tc.BV(64, 0)
 	maxD := in.i64c(1<<63 - 1)
@@ -139,7 +139,7 @@ func registerTime() {
 	intrinsics["(time.Time).Add"] = func(in *Interp, fr *frame, a []Value) Value {
 		w, e := in.timeParts(a[0])
 		_ = w
-		return Struct{in.tc.BV(64, 1), in.tc.Add(e, a[1].(*Term)), (*Value)(nil)}
+		return Struct{in.tc.BV(64, 1), in.arith(OpAdd, e, a[1].(*Term), "Time.Add"), (*Value)(nil)}
 	}
 	intrinsics["(time.Time).After"] = func(in *Interp, fr *frame, a []Value) Value { return in.timeBefore(a[1], a[0]) }
 	intrinsics["(time.Time).Before"] = func(in *Interp, fr *frame, a []Value) Value { return in.timeBefore(a[0], a[1]) }
@@ -288,4 +288,14 @@ func (in *Interp) lookupFn(pkg, name string) *ssa.Function {
 		in.unsupported("package %s not loaded", pkg)
 	}
 	return p.Func(name)
+}
+
+// arith: + and - on instants; in Int mode the result carries a no-overflow obligation.
+func (in *Interp) arith(op Op, a, b *Term, what string) *Term {
+	tc := in.tc
+	r := tc.bin(op, a, b)
+	if a.w == WInt && !r.IsConst() {
+		in.obligation(tc.And(tc.Le(tc.IntC(-1<<63), r, true), tc.Le(r, tc.IntC(1<<63-1), true)), "int64 overflow in "+what)
+	}
+	return r
 }
